@@ -11,7 +11,9 @@ Init == /\ stage = 0 /\ cfg = [len |-> 0] /\ hist = <<>> /\ ncmd = 0
 Choose ==
   /\ stage < 6 /\ stage' = stage + 1 /\ UNCHANGED <<hist, ncmd>>
   /\ CASE stage = 0 -> \E len \in 1..MaxLen : cfg' = [len |-> len]
-       [] stage = 1 -> \E lo \in 0..(cfg.len - 1), hi \in 1..cfg.len : lo < hi /\ cfg' = cfg @@ [lo |-> lo, hi |-> hi]
+       \* (rs: a slice that ends at the end of the audio may be written as another slice replaced by `lo..`)
+       [] stage = 1 -> \E lo \in 0..(cfg.len - 1), hi \in 1..cfg.len, rs \in BOOLEAN :
+                          lo < hi /\ (rs => hi = cfg.len) /\ cfg' = cfg @@ [lo |-> lo, hi |-> hi, rs |-> rs]
        [] stage = 2 -> \E ls \in -1..(cfg.hi - cfg.lo - 1) : cfg' = cfg @@ [ls |-> ls]
        [] stage = 3 -> IF cfg.ls = -1 THEN cfg' = cfg @@ [le |-> -1, open |-> FALSE]
                        \* (open: the loop region is written ls.. - its end is the end of the audio, i.e. of the slice)
